@@ -725,10 +725,26 @@ def harness(E, cfg):
         if E.symbolic:
             backend.configure(svd="factor", qr="factor")
         M = E.real("M", (m, n))
-        ret, w = GW(SV.svd_interface, M, method="randomized_svd", n_eigenvecs=k, n_oversamples=os_, n_iter=it, random_state=0, flip_sign=False)
+        # spy on the range finder: width of the Gaussian sketch actually drawn (both branches of randomized_svd)
+        widths = []
+        real_rf = SV.randomized_range_finder
+
+        def spy_rf(A, n_dims, *a, **kw):
+            widths.append((tuple(np.shape(A)), n_dims))
+            return real_rf(A, n_dims, *a, **kw)
+
+        SV.randomized_range_finder = spy_rf
+        try:
+            ret, w = GW(SV.svd_interface, M, method="randomized_svd", n_eigenvecs=k, n_oversamples=os_, n_iter=it, random_state=0, flip_sign=False)
+        finally:
+            SV.randomized_range_finder = real_rf
         if ret is None:
             return
         U, S, V = ret
+        # "whenever the requested rank plus oversampling covers the matrix rank": the sketch must be as wide as
+        # min(n_eigenvecs + n_oversamples, min(shape)) -- a narrower sketch cannot contain the range of a matrix of that rank
+        ke_ = max(m, n) if k is None else min(k, max(m, n))
+        E.prove("sketch_width_covers_rank_plus_oversampling", len(widths) == 1 and widths[0][1] >= min(ke_ + os_, min(m, n)), detail=str(widths))
         su, ss, sv = expected_shapes(m, n, k)
         E.prove("shape_U", tuple(np.shape(U)) == su, detail=f"{np.shape(U)} vs {su}")
         E.prove("shape_S", tuple(np.shape(S)) == ss, detail=f"{np.shape(S)} vs {ss}")
